@@ -635,7 +635,17 @@ public final class Driver {
         String id = toks.length > 1 ? toks[1] : "?";
         StringBuilder out = new StringBuilder();
         try {
-            if (cmd.equals("ENC")) {
+            if (cmd.equals("UNREG") || cmd.equals("REG")) {
+                // the application changes the checksum registry between messages
+                if (toks.length > 2) {
+                    if (cmd.equals("REG")) {
+                        com.finproto.codec.ChecksumServiceFactory.getInstance().restore(toks[2]);
+                    } else {
+                        com.finproto.codec.ChecksumServiceFactory.getInstance().remove(toks[2]);
+                    }
+                }
+                out.append("OK ").append(id).append('\n');
+            } else if (cmd.equals("ENC")) {
                 Object obj = build(new Cursor(toks, 2), Object.class, "?");
                 if (obj == null) {
                     throw new Unsupported("syntax nil root");
